@@ -44,7 +44,7 @@ LEVEL_TEXT = ("Each handler is proved sound for all operand values and every com
 LEVEL_NOTE = ("Trusted: ufv/den.py semantics; z3; argument numbers bounded by 2 (the property's forms have 0-2 arguments); "
               "CellAvg/FacetAvg/ReferenceValue are assumed to be linear maps (no denotation); shapes enumerated.")
 TRUSTED = ["ufv/den.py, ufv/num.py", "z3", "linearity of CellAvg, FacetAvg, ReferenceValue (assumed, textbook)"]
-ASSUMPTIONS = ["at most two argument numbers; abstract values: (), (v0), (conj v0), (v1), (conj v0, v1) and, thorough, split parts of v0",
+ASSUMPTIONS = ["handler rules: at most two argument numbers (final acceptance and end-to-end forms: up to four); abstract values: (), (v0), (conj v0), (v1), (conj v0, v1) and, thorough, split parts of v0",
                "operand shapes per node class as listed in ufv/nodes.py",
                "math functions are checked in real mode (complex arguments have no denotation)",
                "precondition: integrand is what compute_form_data passes (compound tensor operators lowered), so the inner/dot/outer "
@@ -266,15 +266,16 @@ def build(run):
     def final():
         c = Opq("c", dom=tri)
         n = 0
-        pool = [(v0, False), (v0, True), (v1, False), (v1, True)]
-        for r in range(0, 3):
+        v2, v3 = ufl.Argument(V, 2), ufl.Argument(V, 3)       # multilinear forms of rank 3 and 4: every argument but the test function is unconjugated
+        pool = [(v0, False), (v0, True), (v1, False), (v1, True), (v2, False), (v2, True), (v3, False), (v3, True)]
+        for r in range(0, 5):
             for combo in itertools.combinations(pool, r):
                 if len({a.number() for a, _ in combo}) != len(combo):
                     continue
                 expr = c
                 for a, cj in combo:
                     expr = expr * (C.Conj(a) if cj else a)
-                for form_args in [(), (v0,), (v1,), (v0, v1)]:
+                for form_args in [(), (v0,), (v1,), (v0, v1), (v0, v1, v2), (v0, v2), (v0, v1, v2, v3), (v1, v2)]:
                     for cm in (False, True):
                         n += 1
                         try:
@@ -313,6 +314,13 @@ def build(run):
             ("derivative of energy", derivative(0.5 * inner(grad(f), grad(f)) * dx + f ** 3 * dx, f, v)), ("sin(u)*conj(v)", sin(u) * conj(v) * dx),
             ("(u+f)*conj(v)", (u + f) * conj(v) * dx), ("grad(u*conj(v))[0]", grad(u * conj(v))[0] * dx),
         ]
+        # rank 3 (a third argument, e.g. the direction of a second derivative): linear in every argument but the test function
+        w3 = ufl.Argument(V, 2)
+        forms += [("trilinear conj(v)*u*w", conj(v) * u * w3 * dx), ("trilinear conj(v)*u*conj(w)", conj(v) * u * conj(w3) * dx),
+                  ("trilinear inner(u, v*w)", inner(u, v * w3) * dx), ("trilinear inner(grad u, grad w)*conj(v)", inner(grad(u), grad(w3)) * conj(v) * dx),
+                  ("trilinear inner(grad w, grad v)*u", inner(grad(w3), grad(v)) * u * dx), ("trilinear conj(v*w)*u*f", conj(v * w3) * u * f * dx),
+                  ("derivative of a bilinear form in a third direction", derivative(f ** 3 * u * conj(v) * dx, f, w3)),
+                  ("derivative of a bilinear form in a conjugated direction", derivative(f ** 3 * u * conj(v) * dx, f, conj(w3)))]
         n = 0
         for name, form in forms:
             try:
@@ -323,7 +331,11 @@ def build(run):
             if not accepted:
                 n += 1
                 continue       # rejections are always allowed by the property (conservative)
-            for itg in form.integrals():
+            written = form
+            if any(isinstance(t_, C.CoefficientDerivative) for it_ in form.integrals() for t_ in ufl.corealg.traversal.unique_pre_traversal(it_.integrand())):
+                from ufl.algorithms import expand_derivatives
+                written = expand_derivatives(form)       # Gateaux derivatives denote their expansion (C02's contract)
+            for itg in written.integrals():
                 for arg in form.arguments():
                     nbr = arg.number()
 
